@@ -332,6 +332,8 @@ def mechanism(io, ai, v, kind, events, masks):
         return "encode-masks/%s/%s" % (family(ai, io.ci.cls), owner_of(io))
     for e in events:
         if e[0] == "wn" and e[2] == v:
+            if v >= (1 << e[1]):
+                return "wrap_negative/accepts-above-unsigned-max"
             if v >= 0:
                 return "wrap_negative/accepts-unsigned-range"
             if v < -(1 << (e[1] - 1)):
@@ -941,12 +943,12 @@ def reloc_report(p, ai, rname, kind, x, off, d, events, b, seen, wit, weak, unal
     rcls = ai.arch.isa.relocation_map[rname]
     dd = int(d) if d.denominator == 1 else float(d)
     what_kind = relation(x, d)
-    if unaligned or d.denominator != 1:
+    if unaligned or d.denominator != 1 or 0 < abs(x - d) < 8:
         what_kind = "drops-low-bits"
     key = None
     for e in events or ():
         if e[0] == "wn" and e[2] >= (1 << (e[1] - 1)) and what_kind != "drops-low-bits":
-            key = "wrap_negative/accepts-unsigned-range"
+            key = "wrap_negative/accepts-unsigned-range" if e[2] < (1 << e[1]) else "wrap_negative/accepts-above-unsigned-max"
     if key is None:
         key = "reloc/%s/%s" % (rcls.__name__, what_kind if what_kind == "drops-low-bits" else "wraps")
     if weak:
